@@ -299,12 +299,15 @@ def walk_cfg(body, leaf, watch=None, max_steps=400):
     calls = []
     ret = None
     seen = set()
+    last = {}                  # local -> the statement / call that assigned it last on this path (whole-local assignments)
     for _ in range(max_steps):
         if cur in seen:
-            return {'calls': calls, 'ret': ret, 'ok': False, 'why': 'cycle'}
+            return {'calls': calls, 'ret': ret, 'ok': False, 'why': 'cycle', 'last': last}
         seen.add(cur)
         bl = body.blocks[cur]
         for st in bl['stmts']:
+            if st['k'] == 'assign' and not st['lhs']['proj']:
+                last[st['lhs']['local']] = st
             if st['k'] == 'assign' and st['lhs']['local'] == 0 and not st['lhs']['proj']:
                 ret = st
         t = bl['term']
@@ -316,6 +319,8 @@ def walk_cfg(body, leaf, watch=None, max_steps=400):
                 for a in t['args']:
                     vals.append(try_ev(body, body.expr(a), leaf))
                 calls.append((c['path'], vals, t['loc']))
+            if not t['dest']['proj']:
+                last[t['dest']['local']] = t
             if not t['dest']['proj'] and t['dest']['local'] == 0:
                 ret = t
             if t.get('target', -1) is None or t.get('target', -1) < 0:
@@ -335,7 +340,7 @@ def walk_cfg(body, leaf, watch=None, max_steps=400):
                     nxt = tgt
             cur = nxt
         elif k == 'return':
-            return {'calls': calls, 'ret': ret, 'ok': True}
+            return {'calls': calls, 'ret': ret, 'ok': True, 'last': last}
         else:
             return {'calls': calls, 'ret': ret, 'ok': False, 'why': k}
     return {'calls': calls, 'ret': ret, 'ok': False, 'why': 'steps'}
